@@ -752,6 +752,57 @@ func runConfigHistory(r *Run, prop string) {
 				}
 				h.install(cfg, what)
 				r.Count("servers_removed", 1)
+			case k < 71 && len(h.clients) == 0 && len(cfg.Namespaces) > 0: // every namespace goes, the coordinator restarts on the empty status, a namespace comes (back)
+				names := []string{}
+				for _, nc := range cfg.Namespaces {
+					names = append(names, nc.Name)
+				}
+				cfg.Namespaces = nil
+				removed = append(removed, names...)
+				h.install(cfg, fmt.Sprintf("remove all namespaces %v", names))
+				gone := false
+				for t := 0; t < 1200 && !gone; t++ {
+					time.Sleep(50 * time.Millisecond)
+					if cur := cl.Meta.Current(); cur != nil {
+						gone = len(cur.Namespaces) == 0
+					}
+				}
+				if !gone {
+					continue
+				}
+				cl.CrashCoordinator()
+				h.mu.Lock()
+				h.prog = append(h.prog, "coordinator crash (no namespace left)")
+				h.mu.Unlock()
+				time.Sleep(time.Duration(gi.Range(100, 3000)) * time.Millisecond)
+				name := fmt.Sprintf("ns%d", nsCounter)
+				if gi.Chance(50) {
+					name = names[gi.Intn(len(names))]
+				} else {
+					nsCounter++
+				}
+				for x, rn := range removed {
+					if rn == name {
+						removed = append(removed[:x], removed[x+1:]...)
+						break
+					}
+				}
+				nc := mkNs(gi, name, len(cfg.Servers))
+				cfg = h.current()
+				cfg.Namespaces = append(cfg.Namespaces, nc)
+				h.mu.Lock()
+				h.nsEpoch[name]++
+				h.mu.Unlock()
+				if gi.Chance(50) {
+					// the new configuration is already in place when the coordinator comes back
+					h.install(cfg, "add "+descNs(nc)+" (coordinator down)")
+					cl.StartCoordinator()
+				} else {
+					cl.StartCoordinator()
+					time.Sleep(time.Duration(gi.Range(50, 2000)) * time.Millisecond)
+					h.install(cfg, "add "+descNs(nc))
+				}
+				r.Count("restarts_on_empty_status", 1)
 			case k < 75: // coordinator crash + restart
 				cl.CrashCoordinator()
 				h.mu.Lock()
